@@ -36,13 +36,13 @@ def main():
         meta["why"] = o[-400:]
         return finish(meta, diff)
     meta["applies"] = True
-    mods = ["grpcgcp"] if name != "BN6" else ["spanner_prober", "e2e-checksum"]
+    mods = ["grpcgcp"] if name not in ("BN6", "BM6") else ["spanner_prober", "e2e-checksum"]
     ok = True
     for m in mods:
         rc, o = sh("go build -o /dev/null ./... 2>&1 || go build ./...", os.path.join(wt, m))
         meta["ran"].append({"cmd": "go build (%s)" % m, "rc": rc, "tail": o[-300:]})
         ok = ok and rc == 0
-    if name != "BN6":
+    if name not in ("BN6", "BM6"):
         rc, o = sh("go test -vet=off -count=1 . ./multiendpoint/", os.path.join(wt, "grpcgcp"))
         if rc != 0:
             rc, o = sh("go test -vet=off -count=1 . ./multiendpoint/", os.path.join(wt, "grpcgcp"))
